@@ -896,7 +896,8 @@ func init() {
 					}
 					if genuine == nil {
 						v.close()
-						return fmt.Errorf("forged catalogue: origin did not gossip to node 2")
+						c.Violate("C11", "origin-does-not-forward-to-every-peer", "the origin (peers 1 and 2, empty list) accepted an item and put no message for peer 2 on the wire", map[string]interface{}{"section": "gossip", "scenario": "forged-catalogue"})
+						return nil
 					}
 					var gs, cur []*pb.Gossiper
 					if genuine.vrx != nil {
@@ -1414,7 +1415,8 @@ func init() {
 			cancel()
 			if m1 == nil || m2 == nil {
 				v.close()
-				return fmt.Errorf("reorder scenario: origin did not gossip both vertices")
+				c.Violate("C11", "origin-does-not-forward-to-every-peer", "the origin accepted two vertices and did not put both on the wire for its peer", map[string]interface{}{"section": "gossip", "scenario": "child-before-parent"})
+				return nil
 			}
 			c.Line("GORIGIN 0 | %s", v.msgSym(*m2))
 			_, e2 := v.gsp[1].Server().GossipVrx(context.Background(), m2.vrx) // child first
